@@ -425,6 +425,7 @@ _SESSION = None
 def session():
     global _SESSION
     if _SESSION is None:
+        c17.enable_library_logging()   # log arguments are code that runs inside request handling
         with SPY:
             _SESSION = Session()
             # a few more peer messages through the readers while the spy is active: a fault answer and a notification
@@ -805,6 +806,11 @@ DOCTYPES = [
     ('laughs', '<!DOCTYPE x [<!ENTITY l0 "EXPANDED_C13"><!ENTITY l1 "&l0;&l0;&l0;&l0;"><!ENTITY l2 "&l1;&l1;&l1;&l1;">'
                '<!ENTITY l3 "&l2;&l2;&l2;&l2;"><!ENTITY l4 "&l3;&l3;&l3;&l3;"><!ENTITY l5 "&l4;_MARKER">]>', '&l5;'),
 ]
+ODD_URIS = ['http://127.0.0.1:99999/notify', 'http://127.0.0.1:65536/', 'http://127.0.0.1:65535/', 'http://127.0.0.1:0/x', 'http://127.0.0.1:-1/x',
+            'http://127.0.0.1:/x', 'http://127.0.0.1:abc/x', 'http://[::1/x', 'http://[::1]:50002/x', 'http://[v1.x]/', 'urn:uuid:1234', 'mailto:a@b.c',
+            'http:///only-path', 'HTTP://127.0.0.1:50002/UP', 'http://127.0.0.1:50002', 'http://user:pw@127.0.0.1:50002/p', '//no-scheme/x', 'x',
+            '', 'http://127.0.0.1:50002/a?b=c#d', 'https://127.0.0.1:50002/tls', 'http://\u00e4.example/x', 'http://127.0.0.1:50002/' + 'a' * 3000,
+            'http://999.999.999.999:80/', 'http://127.0.0.1:00080/x', 'ftp://127.0.0.1/x', 'http://127.0.0.1:50002/%zz', 'http://host name/x']
 HUGE = ['9' * 40, '-1', '-' + '9' * 30, '1e400', '0' * 5000, '4294967296', '18446744073709551616', 'NaN', '', ' ', 'x' * 70000,
         '€ä\U0001f600', '0x10', '1_000', '٣']
 
@@ -813,7 +819,12 @@ def mutate_request(rng, sess, rec, pool):
     """returns (kind, path, body bytes, entity_kind|None)"""
     from lxml import etree
     body, path = rec['body'], rec['path']
-    k = rng.randrange(16)
+    k = rng.randrange(18)
+    if k == 15 and b'NotifyTo' not in body:
+        subs = [r for r in pool if b'NotifyTo' in r['body']]
+        if subs:
+            rec = rng.choice(subs)
+            body, path = rec['body'], rec['path']
     try:
         root = etree.fromstring(body)
     except Exception:  # noqa: BLE001
@@ -910,6 +921,14 @@ def mutate_request(rng, sess, rec, pool):
         for i in range(rng.choice([3, 50])):
             e = etree.SubElement(e, e.tag)
         kind = 'nesting'
+    elif k == 15:
+        # addresses the handlers will store, log and later connect to: odd but (mostly) schema-valid xs:anyURI values
+        addr = [e for e in elems if isinstance(e.tag, str) and etree.QName(e.tag).localname == 'Address'] or \
+               [e for e in elems if isinstance(e.tag, str) and etree.QName(e.tag).localname in ('To', 'ReplyTo', 'Identifier')]
+        if addr:
+            for e in rng.sample(addr, rng.randint(1, len(addr))):
+                e.text = rng.choice(ODD_URIS)
+            kind = 'odd-address'
     else:
         kind = 'valid'
     return kind, path, etree.tostring(root), ent
@@ -999,9 +1018,9 @@ def post_real(ctx, sess, mw, endpoint, kind, path, body, ent, hdr_extra=(), full
             ctx.fail('entity:expanded', f'{sig}: expansion of a declared entity shows up in the answer or in the MDIB', case)
         if LISTENER.contacted():
             ctx.fail('entity:external-fetch', f'{sig}: a connection to the URL of an external entity / DTD was opened', case)
-    # a rejected request changes nothing
+    # a rejected request (error status, or a fault whatever the status) changes nothing
     if provider:
-        if status != 200:
+        if status != 200 or _is_fault(out):
             after = sess.fingerprint()
             if after != before:
                 again, diff = sess.changes_state(lambda: WD.call(mw.do_post, mk_hdr(hdr_extra), path, ('127.0.0.1', 40001), body))
@@ -1018,6 +1037,16 @@ def post_real(ctx, sess, mw, endpoint, kind, path, body, ent, hdr_extra=(), full
              sample={'endpoint': endpoint, 'mutation': kind, 'path': path[-24:], 'status': status, 'reason': reason, 'answer_head': bytes(out[:60]).decode('latin-1')}
              if record is not None and record(kind, status) else None)
     return status
+
+
+def _is_fault(out):
+    if not isinstance(out, (bytes, bytearray)) or b'Fault' not in out:
+        return False
+    try:
+        b = parse_safe(bytes(out)).find('{%s}Body' % S12)
+        return b is not None and b.find('{%s}Fault' % S12) is not None
+    except Exception:  # noqa: BLE001
+        return False
 
 
 def _fp_diff(a, b):
@@ -1070,6 +1099,25 @@ def mutation_stream(ctx, sess):
 
 def _is_state_changing_valid(kind, rec):
     return False
+
+
+class UnboundedRead(BaseException):
+    """the handler asked the connection for 'everything until the peer closes'"""
+
+
+class OpenConnStream(c17.GuardStream):
+    """request stream of a persistent connection: a read without an upper bound would wait until the peer closes the connection
+    (the peer, having sent a complete request, waits for the answer)"""
+    def read(self, n=-1):
+        if n is None or n < 0:
+            raise UnboundedRead
+        return super().read(n)
+
+
+class OpenConnSock(c17.FakeSock):
+    def __init__(self, data):
+        super().__init__(data)
+        self.inp = OpenConnStream(data)
 
 
 class _NoClose(io.BytesIO):
@@ -1275,7 +1323,7 @@ def http_stream(ctx, sess, L):
                 kind = 'coded'
             hdrs += [('Content-Encoding', alg), ('Content-Length', str(len(wire)))]
         elif k == 5:
-            hdrs.append(('Content-Length', rng.choice(['abc', '', '-5', '1e3', '99999999999999999999999', ' 12', '0x10', str(len(wire) + 50), '0'])))
+            hdrs.append(('Content-Length', rng.choice(['abc', '', '-5', '-1', '1e3', '99999999999999999999999', ' 12', '0x10', str(len(wire) + 50), '0'])))
             kind = 'bad-content-length'
         elif k == 6:
             path = rng.choice(['/nope', '?x', '//[', '/', '*', 'http://[::1', '/%zz', path + '/../..', '/' + 'a' * 5000, path.split('/')[1]])
@@ -1301,10 +1349,15 @@ def http_stream(ctx, sess, L):
             f'{a}: {b}\r\n'.encode('latin-1', 'replace') for a, b in hdrs) + b'\r\n' + wire
         case = {'kind': 'http', 'mutation': kind, 'raw': c17.hx(raw) if len(raw) < 20000 else None, 'raw_len': len(raw)}
         before = sess.fingerprint()
-        sock = c17.FakeSock(raw)
+        sock = OpenConnSock(raw)
         r = WD.call(L.rh.DispatchingRequestHandler, sock, ('127.0.0.1', 50000), server)
         out = b''.join(sock.out)
         ctx.case({'k': 'http', 'm': kind, 'r': hashlib.sha1(raw).hexdigest()}, nontrivial=kind != 'valid')
+        if r[0] == 'exc' and isinstance(r[1], UnboundedRead):
+            ctx.fail(f'do_{method}:reads-until-connection-close', f'{kind}: the handler reads the request stream without an upper bound: on a '
+                     'persistent connection it blocks until the peer closes (and swallows pipelined requests)', case)
+            ctx.count(f'http:{kind.split(":")[0]}:unbounded-read')
+            continue
         if r[0] == 'hang':
             ctx.fail('do_POST:hang' if method == 'POST' else 'do_GET:hang', f'{kind}: request handler does not return', case)
             continue
@@ -1434,11 +1487,13 @@ def _run_case(ctx, L, case):
         server = types.SimpleNamespace(dispatcher=sess.psrv.dispatcher, supported_encodings=list(L.CH.available_encodings), chunk_size=0,
                                        logger=mock.MagicMock())
         raw = c17.unhx(case['raw'])
-        sock = c17.FakeSock(raw)
+        sock = OpenConnSock(raw)
         r = WD.call(L.rh.DispatchingRequestHandler, sock, ('127.0.0.1', 50000), server)
         method = raw.split(b' ')[0].decode('latin-1')
         out = b''.join(sock.out)
-        if r[0] == 'hang':
+        if r[0] == 'exc' and isinstance(r[1], UnboundedRead):
+            ctx.fail(f'do_{method}:reads-until-connection-close', 'corpus case', case)
+        elif r[0] == 'hang':
             ctx.fail(f'do_{method}:hang', 'corpus case', case)
         elif r[0] == 'exc':
             ctx.fail(f'do_{method}:exception-escapes', f'{type(r[1]).__name__}: {str(r[1])[:160]}', case)
